@@ -1,0 +1,12 @@
+//go:build verif
+
+package unmarshal
+
+// Aliases of unexported identifiers for the verification harness (property C03).
+// No behaviour; compiled only with -tags verif.
+
+var (
+	VerifC03ParseLabelsLokiFormat = parseLabelsLokiFormat
+	VerifC03ParseTime             = parseTime
+	VerifC03SanitizeMetricName    = sanitizeMetricName
+)
